@@ -7,6 +7,8 @@ use std::time::Instant;
 use crate::util::J;
 use crate::Args;
 
+pub mod c02grid;
+pub mod c05cycle;
 pub mod c06;
 pub mod c07;
 pub mod c08;
@@ -110,6 +112,8 @@ pub fn run(args: &Args) -> J {
         "sess" => sessmode::run(args, &mut rep),
         "c07" => c07::run(args, &mut rep),
         "c06" => c06::run(args, &mut rep),
+        "c02grid" => c02grid::run(args, &mut rep),
+        "c05cycle" => c05cycle::run(args, &mut rep),
         "c15" => c15::run(args, &mut rep),
         "c17" => c17::run(args, &mut rep),
         "c16" => c16::run(args, &mut rep),
